@@ -1,16 +1,43 @@
-(* C07 - always terminates; worker failure is neither a hang nor a silent success. Property theorems only. *)
-From Grcov Require Import Model.Pipeline.
+(* C07 - always terminates; worker failure is neither a hang nor a silent success.
+   Property theorems only; proofs in Proofs/PipelineFacts.v. *)
+From Grcov Require Import Model.Pipeline Proofs.MergeFacts Proofs.PipelineFacts.
 
-(* The pinned code (main keeps a receiver handle) has a reachable stuck state: one worker, capacity 2,
-   three inputs, the first one kills the worker; the producer finishes, main blocks forever on the stop marker.
-   Reproduced on the real binary (hang), repaired by the fix: commit that drops main's receiver. *)
-Definition cfg_stuck (keep : bool) : cfg :=
-  mkCfg 1 2 keep (fun _ => Some []) (fun i => if (i =? 0)%N then FDieParse else FNone).
-Definition sched_stuck : list label := [LSend; LSend; LRecv 0; LSend; LDieParse 0; LProdDone; LJoinedProd].
+(* Termination: every step strictly decreases a natural-number measure, so every execution - whatever the
+   inputs, faults, number of workers, capacity and interleaving - has at most measure(init) steps. *)
+Theorem C07_step_decreases : forall c s l s',
+  length (s_w s) = n_workers c -> step c s l = Some s' ->
+  (measure c s' < measure c s)%nat /\ length (s_w s') = n_workers c.
+Proof. exact step_decreases. Qed.
+Theorem C07_terminates : forall c items ls s,
+  run c (init c items) ls = Some s -> (length ls <= measure c (init c items))%nat.
+Proof. exact terminates. Qed.
+(* No hang: once main does not keep a receiver handle (the repaired code), every reachable state that has
+   not exited can take a step - together with termination every execution ends with an exit status. *)
+Theorem C07_no_stuck_state : forall c items ls s,
+  keep_rx c = false -> (1 <= n_workers c)%nat -> (1 <= cap c)%nat ->
+  run c (init c items) ls = Some s -> exited s = false ->
+  exists l s', step c s l = Some s'.
+Proof. exact no_stuck_state. Qed.
+(* No silent success: if the producer or a worker died, the exit status is not 0. *)
+Theorem C07_death_gives_nonzero : forall c items ls s code,
+  run c (init c items) ls = Some s -> s_m s = MExit code ->
+  (s_p s = PDead \/ WDead ∈ s_w s) -> code <> 0.
+Proof. exact death_gives_nonzero. Qed.
+(* Reject isolation: without deaths, a run that exits 0 reports exactly the aggregation of the accepted
+   inputs - the rejected ones (by the parser or by an injected rejection) contribute nothing. *)
+Theorem C07_reject_isolation : forall c items ls s,
+  (1 <= n_workers c)%nat -> no_deaths c items ->
+  run c (init c items) ls = Some s -> s_m s = MExit 0 ->
+  s_merged s ≡ₚ filter (fun i => accepted c i = true) items /\
+  obs_map (s_acc s) = obs_map (add_results ∅ (concat (map (batch c) (filter (fun i => accepted c i = true) items)))).
+Proof. exact exactly_once. Qed.
+(* The pinned code (main kept a receiver handle) had a reachable stuck state: one worker, capacity 2, three
+   inputs, the first kills the worker; reproduced on the real binary as a hang, repaired by fix: 7e36c21. *)
 Theorem C07_stuck_refuted_keep_rx :
-  exists s, run (cfg_stuck true) (init (cfg_stuck true) [0; 1; 2]%N) sched_stuck = Some s /\ stuck (cfg_stuck true) s = true.
-Proof. eexists. split; [vm_compute; reflexivity|vm_compute; reflexivity]. Qed.
-(* Without the handle the same schedule continues to a non-zero exit status. *)
-Theorem C07_same_schedule_exits_nonzero :
-  exists s, run (cfg_stuck false) (init (cfg_stuck false) [0; 1; 2]%N) (sched_stuck ++ [LStopFail]) = Some s /\ s_m s = MExit 101.
-Proof. eexists. split; vm_compute; reflexivity. Qed.
+  exists ls s, run cfg_stuck (init cfg_stuck [0; 1; 2]%N) ls = Some s /\ stuck cfg_stuck s = true.
+Proof. exact stuck_refuted_keep_rx. Qed.
+Theorem C07_not_stuck_without_rx :
+  exists s, run cfg_unstuck (init cfg_unstuck [0; 1; 2]%N) stuck_schedule = Some s /\
+            stuck cfg_unstuck s = false /\
+            exists s', step cfg_unstuck s LStopFail = Some s' /\ s_m s' = MExit 101.
+Proof. exact not_stuck_without_rx. Qed.
